@@ -202,6 +202,39 @@ def values_in(pred, acc, seen=None):
             acc.add(v)
         elif hasattr(v, "__dict__"):
             values_in(v, acc, seen)
+    # values a predicate compares with may also be written into its code instead of being stored on the object
+    # (`token.value in (">", ">>")`): the short string constants of the class's methods and of the module-level
+    # helpers they call are distinguished values too
+    for cls in type(pred).__mro__:
+        if cls.__module__.startswith("codelimit"):
+            for fn in vars(cls).values():
+                _code_strings(getattr(fn, "__func__", fn), acc, set())
+
+
+def _code_strings(fn, acc, seen):
+    code = getattr(fn, "__code__", None)
+    if code is None or id(code) in seen:
+        return
+    seen.add(id(code))
+
+    def consts(c):
+        for k in c.co_consts:
+            if isinstance(k, str):
+                if 0 < len(k) <= 4 and not any(ch.isspace() for ch in k):
+                    acc.add(k)
+            elif isinstance(k, (tuple, frozenset)):
+                for x in k:
+                    if isinstance(x, str) and 0 < len(x) <= 4 and not any(ch.isspace() for ch in x):
+                        acc.add(x)
+            elif hasattr(k, "co_consts"):
+                consts(k)
+
+    consts(code)
+    g = getattr(fn, "__globals__", {})
+    for name in code.co_names:
+        h = g.get(name)
+        if callable(h) and getattr(h, "__module__", "").startswith("codelimit") and hasattr(h, "__code__"):
+            _code_strings(h, acc, seen)
 
 
 def walk(dfa):
